@@ -418,6 +418,11 @@ pub mod imp {
         op!(v, "position", "live", "", |w| format!("ok:{:?}", w.e("ecu2").position()));
         op!(v, "position", "stale", "", |w| format!("ok:{:?}", w.e("stale").position()));
         op!(v, "item_name", "named", "", |w| format!("ok:{:?}", w.e("ecu1").item_name()));
+        op!(v, "item_name", "is_identifiable", "", |w| format!("ok:{}", w.e("ecu1").is_identifiable()));
+        op!(v, "item_name", "is_identifiable_unnamed", "", |w| format!("ok:{}", w.e("p1el").is_identifiable()));
+        op!(v, "item_name", "is_identifiable_wrapper", "S3", |w| format!("ok:{}", w.e("wrapper").is_identifiable()));
+        op!(v, "item_name", "min_version", "", |w| format!("ok:{:?}", w.e("ecu1").min_version().ok()));
+        op!(v, "item_name", "min_version_stale", "", |w| format!("ok:{:?}", w.e("stale").min_version().ok()));
         op!(v, "item_name", "props", "", |w| format!(
             "ok:{:?}/{:?}/{}/{}/{:?}",
             w.e("ecu1").element_name(),
@@ -691,8 +696,82 @@ pub mod imp {
         let _ = SplitMix64(0);
     }
 
+    /// `locks world`: the worlds of the shapes as data (for the footprint tie, coq/Conc/Footprint.v): every element reachable from the
+    /// two roots or from a kept handle with parent link, name, is_named of its type, LOCAL file set and content items
+    fn world_main() {
+        for shape in SHAPES {
+            let w = build(shape);
+            let base = w.base_lock;
+            let rel = |e: &Element| e.verif_lock_id().wrapping_sub(base);
+            let all_files: Vec<ArxmlFile> = w.files.iter().chain(w.files2.iter()).cloned().collect();
+            println!("WORLD {}", shape);
+            println!("CONST shortname={} latest={}", ElementName::ShortName as u16, AutosarVersion::LATEST as u32);
+            for (k, m) in [&w.model, &w.model2].iter().enumerate() {
+                println!("M {} {}", k, m.verif_lock_id().wrapping_sub(base));
+            }
+            for (k, f) in all_files.iter().enumerate() {
+                println!("F {} {} {}", k, f.verif_lock_id().wrapping_sub(base), f.version() as u32);
+            }
+            let mut seen = std::collections::BTreeSet::new();
+            let mut stack: Vec<Element> = vec![w.model.root_element(), w.model2.root_element()];
+            stack.extend(w.h.values().cloned());
+            while let Some(e) = stack.pop() {
+                if !seen.insert(rel(&e)) {
+                    continue;
+                }
+                let parent = match e.parent() {
+                    Ok(Some(p)) => {
+                        stack.push(p.clone());
+                        format!("E{}", rel(&p))
+                    }
+                    Ok(None) => match e.model() {
+                        Ok(m) if m == w.model => "M0".to_string(),
+                        Ok(_) => "M1".to_string(),
+                        Err(_) => "-".to_string(),
+                    },
+                    Err(_) => "-".to_string(),
+                };
+                let files: Vec<String> = match e.file_membership() {
+                    Ok((true, set)) => {
+                        let mut v: Vec<usize> = set.iter().filter_map(|wf| wf.upgrade()).filter_map(|f| all_files.iter().position(|x| *x == f)).collect();
+                        v.sort();
+                        v.iter().map(|x| x.to_string()).collect()
+                    }
+                    _ => vec![],
+                };
+                let mut content = Vec::new();
+                for item in e.content() {
+                    match item {
+                        ElementContent::Element(c) => {
+                            content.push(format!("e{}", rel(&c)));
+                            stack.push(c);
+                        }
+                        ElementContent::CharacterData(_) => content.push("d".to_string()),
+                    }
+                }
+                println!(
+                    "N {} {} {} {} files={} content={}",
+                    rel(&e),
+                    parent,
+                    e.element_name() as u16,
+                    e.element_type().is_named() as u8,
+                    if files.is_empty() { "-".to_string() } else { files.join(",") },
+                    if content.is_empty() { "-".to_string() } else { content.join(",") }
+                );
+            }
+            for (k, e) in &w.h {
+                println!("H {} {}", k, rel(e));
+            }
+            for (n, v) in [("Elements", ElementName::Elements), ("Category", ElementName::Category), ("ShortName", ElementName::ShortName)] {
+                println!("EN {} {}", n, v as u16);
+            }
+            println!("ENDWORLD");
+        }
+    }
+
     pub fn main(args: &[String]) {
         match args.first().map(|s| s.as_str()) {
+            Some("world") => world_main(),
             Some("trace") => trace_main(&args[1..]),
             Some("list") => {
                 for o in ops() {
